@@ -15,7 +15,12 @@ RULE = ('exhaustive small scope over (length, chunk size, overlap<chunk size) --
         'chunk length c up to a bound, fractional rates (c+f)/600, exact ties m/16 Hz, calibrated probe rates like '
         '29999.954 Hz with recordings of 2-3 chunks of ~1.8e7 samples, given as float / int / numpy.float64; the chunk '
         'length is computed by the model as the nearest integer to 600 * rate), real mtscomp .cbin readers over chunk durations x batch sizes x cache '
-        'on/off; then seeded random larger cases. Non-trivial = more than one chunk/interval/excerpt is '
+        'on/off; flat readers with the rare options (header offset= in bytes around the row size, 1-4 channels, six dtypes / byte '
+        'orders, an incomplete last row, paths given as list / tuple / strings / single Path / single str / direct constructor, '
+        '.bin / .dat) and HISTORIES of calls on one reader object (every sequence of <= 2 (3 thorough) of: full pass, pass with '
+        'cache=False, pass over a column-sliced clone made now / made first, two live iterators advanced in turn, an abandoned '
+        'iterator; every pass of the history observed in some case; also through the sample-rate route and on compressed '
+        'readers); then seeded random larger cases. Non-trivial = more than one chunk/interval/excerpt is '
         'produced; distinct = distinct abstract input.')
 EXHAUSTIVE = {'quick': True, 'thorough': True}
 CLAUSES = {
